@@ -80,6 +80,10 @@ def make_world(ctx, ending, idx, opts=()):
             rng.choice([t["setUp"], t["body"], t["tearDown"]])["warnfilter"] = True
         if rng.random() < 0.3 and ending not in ("interrupt", "ttd-raises-interrupt"):
             rng.choice([t["setUp"], t["body"], t["tearDown"]])["settrace"] = True
+    # ... or takes the directory of the tests off sys.path (import isolation) and leaves it that way
+    if idx % 3 == 1 and ending not in ("interrupt", "ttd-raises-interrupt", "list"):
+        for t in w["tests"][-1:]:
+            t["tearDown"]["droppath"] = True
     if "gc" in opts:
         # ... or tunes the collector for good: with --gc the thresholds of before the run come back all the same
         for t in w["tests"]:
